@@ -4,7 +4,7 @@
    missing predicates, stateIn, and / or / not); None = ImplementationMissingError.
    Tied to the code by the K-macro correspondence on exhaustively
    enumerated formulas (harness/props/c06.py). *)
-From XSM Require Import Model.Select Proofs.GuardP Proofs.SelectP Model.TreeLib Gen.GenGuard Proofs.GuardBridge.
+From XSM Require Import Model.Select Proofs.GuardP Proofs.SelectP Model.TreeLib Gen.GenGuard Proofs.GuardBridge Gen.GenStateIn Proofs.StateInBridge.
 
 (* and / or / not have their ordinary boolean meaning at ANY nesting depth;
    a raising predicate counts as false *)
@@ -61,6 +61,29 @@ Theorem C06_statein_exact : forall m C cx target s,
   geval m C cx (GStateIn target) = Some (mem s C).
 Proof. intros. simpl. f_equal. now apply state_in_exact. Qed.
 Print Assumptions C06_statein_exact.
+
+(* TIE T: the part of _is_state_in after the decoding of the guard's params, re-translated from the current source on every build
+   (Gen/GenStateIn.v, a function of the target string and the ids of the active states), is the model's stateIn *)
+Theorem C06_statein_is_the_source : forall m C target,
+  state_in_src target (map (id_of m) C) = state_in m C target.
+Proof. exact state_in_bridge. Qed.
+Print Assumptions C06_statein_is_the_source.
+
+Theorem C06_statein_leaf_is_the_source : forall m C cx target,
+  geval m C cx (GStateIn target) = Some (state_in_src target (map (id_of m) C)).
+Proof. exact geval_statein_is_the_source. Qed.
+Print Assumptions C06_statein_leaf_is_the_source.
+
+(* hence the specification holds of the SOURCE's function: true exactly when a state the name designates is active *)
+Theorem C06_source_statein_spec : forall m C target,
+  target <> ""%string ->
+  (state_in_src target (map (id_of m) C) = true <-> exists s, In s C /\ names_state m s target).
+Proof. intros m C target H. rewrite state_in_bridge. exact (state_in_spec m C target H). Qed.
+Print Assumptions C06_source_statein_spec.
+
+Example C06_source_statein_runs :
+  state_in_src "#b.c" ["m"; "m.a"; "m.b"; "m.b.c"] = true /\ state_in_src "b" ["m"; "m.ab"] = false /\ state_in_src "" ["m"] = false.
+Proof. vm_compute. repeat split. Qed.
 
 (* a candidate whose guard raises is skipped and later candidates stay eligible:
    the eligible list of a bucket is exactly the candidates whose guard is true *)
